@@ -44,9 +44,10 @@ def fee_limits(network):
 class Judge:
     def __init__(self, col, ctx, CH, case):
         self.col, self.ctx, self.CH, self.case = col, ctx, CH, case
+        self.accounts = tuple(range(case.get('accounts', 1)))
 
-    def wallet_unspent(self, min_confirms=0):
-        addrs = self.ctx.own_addresses()
+    def wallet_unspent(self, min_confirms=0, account=None):
+        addrs = self.ctx.own_addresses(accounts=self.accounts if account is None else (account,))
         return {k: v for k, v in self.CH.unspent(addrs).items() if self.CH.confirmations(v) >= min_confirms and v['network'] == self.ctx.network}
 
     def check_tx(self, t, req, before_unspent, label):
@@ -73,7 +74,7 @@ class Judge:
             u = before_unspent.get(op)
             if u is None:
                 known = self.CH.utxos.get(op)
-                why = 'not an output of this wallet' if known is None or known['address'] not in ctx.own_addresses() else \
+                why = 'not an output of this wallet' if known is None or known['address'] not in ctx.own_addresses(accounts=self.accounts) else \
                     ('already spent by %s' % known['spent_by'] if known['spent_by'] else 'fewer than %d confirmations' % req.get('min_confirms', 1))
                 col.violation(None, '[%s] input %s:%d is not a currently unspent, sufficiently confirmed output of this wallet: %s'
                               % (label, op[0][:16], op[1], why), case, op, 'wallet UTXO with >= %d confirmations' % req.get('min_confirms', 1))
@@ -110,7 +111,7 @@ class Judge:
                 col.violation(None, '[%s] recipient %s amount %d appears %d times (requested %d)'
                               % (label, pair[0].hex()[:24], pair[1], outs.get(pair, 0), cnt), case, outs.get(pair, 0), cnt)
         remaining = outs - want
-        change_scripts = ctx.own_scripts(1 if ctx.kind != 'single' else None)
+        change_scripts = ctx.own_scripts(1 if ctx.kind != 'single' else None, accounts=self.accounts)
         n_change = 0
         for (script, value), cnt in remaining.items():
             if script in rest_scripts:
@@ -118,7 +119,7 @@ class Judge:
                 continue
             if req['kind'] == 'sweep' and len(req['recipients']) == 1 and script == bytes.fromhex(req['recipients'][0]['script']):
                 continue   # single-target sweep: the amount is "everything minus fee"
-            if label.startswith('bumpfee') and script in ctx.own_scripts(None):
+            if label.startswith('bumpfee') and script in ctx.own_scripts(None, accounts=self.accounts):
                 n_change += cnt   # bumpfee may add change on a payment-chain key (documented: get_key())
                 continue
             if script not in change_scripts:
@@ -183,11 +184,14 @@ def make_request(rnd, ctx, J, CH):
     network = ctx.network
     fmin, fmax, dust = fee_limits(network)
     min_confirms = rnd.choice([0, 1, 1, 3, 3, 6])
-    spendable = J.wallet_unspent(min_confirms)
+    account_id = rnd.choice([None, 0, 1, 1]) if len(J.accounts) > 1 else None
+    spendable = J.wallet_unspent(min_confirms, account=(account_id or 0) if len(J.accounts) > 1 else None)
     bal = sum(u['value'] for u in spendable.values())
     from vf import wallet_env
     kind = rnd.choice(['send_to', 'send_to', 'send', 'send', 'create_inputs', 'sweep', 'sweep_multi', 'rbf_bump', 'rbf_bump_reload', 'over'])
     req = {'kind': kind, 'min_confirms': min_confirms, 'broadcast': rnd.random() < 0.5, 'rseed': rnd.getrandbits(30)}
+    if len(J.accounts) > 1:
+        req['account_id'] = account_id
     nrec = 1 if kind in ('send_to', 'sweep', 'over', 'rbf_bump', 'rbf_bump_reload') else rnd.randint(2, 5)
     recs = []
     scale = 100 if network.startswith('dogecoin') else 1
@@ -256,6 +260,19 @@ def make_request(rnd, ctx, J, CH):
         req['fee'] = int(fmin * 5 * est_vsize)
     if rnd.random() < 0.2 and kind in ('send', 'send_to'):
         req['max_utxos'] = rnd.randint(1, 3)
+    # rarely passed optional arguments (the postconditions are the same)
+    if kind in ('send', 'send_to') and rnd.random() < 0.15:
+        req['locktime'] = rnd.choice([1, 99, 499999999, 500000001])
+    if kind in ('send', 'send_to') and rnd.random() < 0.15:
+        req['replace_by_fee'] = True
+    if kind in ('send', 'send_to') and rnd.random() < 0.15:
+        req['random_output_order'] = False
+    if kind == 'send' and ctx.kind != 'single' and len(J.accounts) == 1 and rnd.random() < 0.15 and spendable:
+        # inputs restricted to the outputs of one or two payment keys
+        held = sorted({ctx.own_scripts(0).get(u['script'], (0, 0))[1] for u in spendable.values() if u['script'] in ctx.own_scripts(0)})
+        if held:
+            rnd.shuffle(held)
+            req['input_key_index'] = held[:rnd.choice([1, 1, 2])]
     return req
 
 
@@ -284,15 +301,24 @@ def execute(req, ctx):
     out_arr = [(r['address'], r['amount']) for r in req['recipients']]
     fee = req.get('fee')
     kw = dict(min_confirms=req['min_confirms'], broadcast=req['broadcast'])
+    if req.get('account_id') is not None:
+        kw['account_id'] = req['account_id']
     priv = ctx.extra_priv or None
     k = req['kind']
+    opt = {}
+    for name in ('locktime', 'replace_by_fee', 'random_output_order'):
+        if name in req:
+            opt[name] = req[name]
+    if req.get('input_key_index'):
+        ids = [w.key_for_path([0, i]).key_id for i in req['input_key_index']]
+        opt['input_key_id'] = ids[0] if len(ids) == 1 else ids
     if k in ('send_to', 'over'):
-        return w.send_to(out_arr[0][0], out_arr[0][1], fee=fee, priv_keys=priv, number_of_change_outputs=req['n_change'], **kw)
+        return w.send_to(out_arr[0][0], out_arr[0][1], fee=fee, priv_keys=priv, number_of_change_outputs=req['n_change'], **kw, **opt)
     if k == 'send':
-        return w.send(out_arr, fee=fee, priv_keys=priv, number_of_change_outputs=req['n_change'], max_utxos=req.get('max_utxos'), **kw)
+        return w.send(out_arr, fee=fee, priv_keys=priv, number_of_change_outputs=req['n_change'], max_utxos=req.get('max_utxos'), **kw, **opt)
     if k == 'create_inputs':
         t = w.transaction_create(out_arr, input_arr=[tuple(i) for i in req['inputs']], fee=fee, min_confirms=req['min_confirms'],
-                                 number_of_change_outputs=max(1, req['n_change']))
+                                 number_of_change_outputs=max(1, req['n_change']), account_id=req.get('account_id'))
         t.sign(priv)
         return t
     if k == 'sweep':
@@ -336,6 +362,28 @@ def run_wallet(case, col):
     if sorted(have) != sorted(addrs):
         col.violation(None, 'wallet payment addresses differ from the reference derivation (see C09)', case, have[:3], addrs[:3])
         return
+    n_acc = case.get('accounts', 1)
+    if n_acc > 1:
+        # second account of the same HD wallet, funded as well; requests name the account they spend from
+        try:
+            w.new_account()
+            nk1 = rnd.randint(1, 4)
+            have1 = [k.address for k in w.get_keys(account_id=1, number_of_keys=nk1)]
+        except Exception as e:
+            col.violation(None, 'new_account/get_keys(account_id=1) raised %r' % (e,), case, repr(e), None)
+            return
+        addrs1 = [ctx.ref.address(1, 0, i) for i in range(nk1)]
+        if sorted(have1) != sorted(addrs1):
+            col.violation(None, 'payment addresses of account 1 differ from the reference derivation (see C09)', case, have1[:3], addrs1[:3])
+            return
+        addrs = addrs + addrs1
+
+    def refresh():
+        if n_acc > 1:
+            for acc in range(n_acc):
+                w.utxos_update(account_id=acc)
+        else:
+            w.utxos_update()
     eq = rnd.choice([10 ** 5, 10 ** 6]) * scale
     last_op = None
     if case.get('depth_scenario'):
@@ -351,7 +399,7 @@ def run_wallet(case, col):
     for j in range(n_utxo):
         v = rnd.choice([eq, eq, 600, 999, 1000, 1001, 5000 * scale, 10 ** 7 * scale + j, 10 ** 8 * scale + j, rnd.randrange(2000, 10 ** 7) * scale])
         # several outputs of one funding transaction (same txid) and funding at different depths
-        last_op = CH.fund(rnd.choice(addrs), v, network, confirmed=rnd.random() < 0.8, same_tx_as=last_op if rnd.random() < 0.35 else None)
+        last_op = CH.fund(rnd.choice(addrs), v, network, confirmed=rnd.random() < 0.8, same_tx_as=last_op if (rnd.random() < 0.35 and n_acc == 1) else None)
         if rnd.random() < 0.3:
             CH.mine(rnd.choice([1, 2, 5]))
     if rnd.random() < 0.5 and n_utxo >= 2 and not case.get('depth_scenario'):
@@ -361,7 +409,7 @@ def run_wallet(case, col):
         total = sum(u['value'] for u in CH.unspent(set(addrs)).values())
         CH.fund(rnd.choice(addrs), 2 * total + 12345, network, confirmed=True)
     try:
-        w.utxos_update()
+        refresh()
     except Exception as e:
         col.violation(None, 'utxos_update raised %r' % (e,), case, repr(e), None)
         return
@@ -416,7 +464,9 @@ def run_wallet(case, col):
                 try:
                     t2 = w.transaction(t.txid)
                     t2.bumpfee(extra_fee=rnd.choice([t2.vsize + 1, 3 * t2.vsize]))
-                    f3 = J.check_tx(t2, dict(req, min_confirms=0), before_unspent, 'bumpfee-reloaded') or {}
+                    # the replacement may keep the original inputs and add any output that was unspent before the original
+                    # request (the original transaction's own outputs are not spendable by its replacement)
+                    f3 = J.check_tx(t2, dict(req, min_confirms=0), before_all, 'bumpfee-reloaded') or {}
                     col.case('bumpfee-reloaded/%s/%s' % (kind, wt), nontrivial=('bumpfee-reloaded', kind, wt, f3.get('n_change', 0)))
                     col.probe('bumpfee_reloaded')
                 except Exception as e:
@@ -465,7 +515,7 @@ def run_wallet(case, col):
             try:
                 CH.faults['lag'] = lag
                 try:
-                    w.utxos_update()
+                    refresh()
                 finally:
                     CH.faults['lag'] = 0
                 if lag:
@@ -519,6 +569,8 @@ def run_shard(spec, col):
         wt = rnd.choice(['legacy', 'p2sh-segwit', 'segwit']) if not network.startswith('dogecoin') else 'legacy'
         case = {'wseed': '%d-%d-%d' % (spec['seed'], spec['shard'], k), 'kind': kind, 'wt': wt, 'network': network,
                 'n_utxo': rnd.choice([1, 2, 3, 5, 8, 12, 40 if k % 7 == 0 else 6]), 'n_req': spec['n_req']}
+        if kind == 'hd' and rnd.random() < 0.35:
+            case['accounts'] = 2
         run_wallet(case, col)
     for k in range(spec.get('n_depth', 1)):
         network = rnd.choice(NETWORKS)
